@@ -69,6 +69,20 @@ def probe_open(world, r, files=None, mode="r", discard=False, directory=None):
             except Exception as e:
                 out["dump"] = None
                 out["errs"] = [["dump", type(e).__name__]]
+            if not discard and not all(out["hashes"]):
+                # an interrupted patch must stay recognisable: merging must not launder it into
+                # a cleanly opening record (read-only sessions do not count it as writable)
+                import shutil
+                import tempfile
+
+                td = tempfile.mkdtemp(prefix="verif-merge-probe-", dir=env.scratch_base())
+                try:
+                    obj.merge_files(Path(os.path.join(td, "laundered")))
+                    out["merged_uncommitted"] = True
+                except Exception:
+                    out["merged_uncommitted"] = False
+                finally:
+                    shutil.rmtree(td, ignore_errors=True)
         finally:
             try:
                 obj.close(commit=False)
@@ -157,6 +171,8 @@ class Recovery:
                 n, hashes = res["n"], res["hashes"]
                 if not all(hashes):
                     self.count("opens-uncommitted")
+                    if res.get("merged_uncommitted"):
+                        raise A.Violation("C11", "uncommitted-state-merged", "the complete set opens with the interrupted patch marked uncommitted, but merge_files turns it into a cleanly opening single container (a state that was never committed)", shape="merge")
                     if n != len(acked) + 1 or not all(hashes[:-1]):
                         raise A.Violation("C11", "uncommitted-shape", f"record opens with {n} containers (hash flags {hashes}), acknowledged commits: {len(acked)}")
                     if len(acked) >= 1:
